@@ -195,9 +195,11 @@ specs["C15"] = {"runs": [
     run(CMD + "register:Harness_presentation_numbers", Q, {"E": 2}, "real", cover=["printed"]),
     run(CMD + "register:Harness_presentation_numbers", T, {"E": 3}, "real", cover=["printed"]),
     run(CMD + "reporter:Harness_day_item", Q, {"E": 2}, "real", owned=["foods-", "totals-", "food-", "total-", "ingredient-"], note="(Totals, TotalsOnly) in 2x2: what is shown is identical whenever shown"),
-    run(CMD + "reporter:Harness_day_item_long_names", QT, {}, "real", cover=["item"], note="names longer than the columns that coincide after shortening"),
+    run(CMD + "reporter:Harness_day_item_long_names", QT, {}, "real", cover=["item"], note="names longer than the columns that coincide after shortening: as foods outside the book, as elements of recipes, as recipes of the book"),
+    run(CMD + "balance:Harness_balance_modes", Q, {"F": 2}, "real", owned=["collapse-"], cover=["printed"], note="collapse modes change only layout: same leaves and amounts (prefix-free sets), top-level rows add up to everything logged (every set)"),
+    run(CMD + "balance:Harness_balance_modes", T, {"F": 3}, "real", owned=["collapse-"], cover=["printed"]),
  ], "assumptions": [REAL, DATA, "printable ASCII names for shortening"],
- "outside_claim": ["template text", "non-ASCII names in shorten", "collapse modes (C03)", "--desc (C05 compares both orders separately)", "flag plumbing of presentation options (urfave/cli)"],
+ "outside_claim": ["template text", "non-ASCII names in shorten", "--desc (C05 compares both orders separately)", "flag plumbing of presentation options (urfave/cli)"],
  "stubs": [FMT, BUFIO, "github.com/aquilax/truncate: executed from its real SSA (math.Ceil/Floor intrinsics)"]}
 
 prec_owned = ["explicit-missing-config-is-error", "load-ok", "database:", "logfile:", "date-format:", "maxdepth:", "today:"]
